@@ -8,6 +8,44 @@ PY = '/venv/bin/python'
 
 # id -> (engine, category, technique, text, note, design_ref)
 CHECKS = {
+    'C05': ('E-conc', 'model_checking',
+            'stateless exploration of ALL transaction-level interleavings of concurrent requests on the real service, with state matching',
+            'Three start states x every unordered pair (with repetition) of 14 provider-writing operations, generation-'
+            'carrying ones with current and stale generations, x all interleavings at top-level-transaction granularity '
+            '(thorough: plus triples, preemption bound 3). Each request runs in its own greenlet on the real WSGI stack; '
+            'every complete schedule class is judged: no 5xx, winners equivalent to a serial order, losers 409 '
+            'placement.concurrent_update (or a serial answer), a successful generation-carrying write saw exactly its '
+            'generation at the begin of its committing transaction.',
+            'each top-level transaction atomic and isolated; switch points = top-level transaction begins; SQLite file with one connection per transaction',
+            'DESIGN.md 5.C05'),
+    'C06': ('E-conc', 'model_checking',
+            'stateless exploration of ALL transaction-level interleavings of concurrent requests on the real service, with state matching',
+            'Three start states (consumer absent / present / two present) x pairs of 11 allocation-writing operations on a '
+            'common consumer (generation null / current / stale, other provider, other project/type, clear, POST batch, '
+            'reshaper, DELETE as a disturbing party, a 1.12 write) at 1.12/1.28/1.34/1.38 x all interleavings (thorough: all 66 '
+            'pairs per state + triples with preemption bound 2); includes the creation race and the window between '
+            'ensure_consumer and the write transaction; same leaf oracle as C05 with the consumer-generation rule.',
+            'each top-level transaction atomic and isolated; DELETE /allocations (no generation) is only judged through its victims',
+            'DESIGN.md 5.C06'),
+    'C07': ('E-conc', 'model_checking',
+            'stateless exploration of ALL transaction-level interleavings of concurrent requests on the real service, with state matching; differential serial oracle',
+            'Start states with nearly-full inventories x pairs (thorough: all pairs of 10 operations in 4 states + 16 triples, '
+            'preemption bound 2) of allocation claims racing for the same inventory, multi-provider claims, POST batches and '
+            'generation-guarded inventory/trait/aggregate updates x all interleavings; for every complete schedule class there '
+            'must be a serial order of the successful requests, executed by the implementation itself on the same snapshot, in '
+            'which all succeed and that ends in the same tables (generations included); evidence counts schedules that entered '
+            'the server-side retry and its independent re-read.',
+            'each top-level transaction atomic and isolated (serializable DBMS); expected side produced by the implementation run serially',
+            'DESIGN.md 5.C07'),
+    'C16': ('E-enum', 'exploration',
+            'complete enumeration of operations x caller classes x single-rule policy overrides on the real service',
+            'Every one of the 37 (route, method) operations x 14 caller classes x {default policy, each of the 38 registered '
+            'rules overridden to "!" (quick) and to 6 different check strings (thorough)} in a populated state, judged by an '
+            'independent evaluator of the documented rule strings: 401 without credentials, 403 and no SQL statement, no canary '
+            'data and unchanged database for callers who do not satisfy the effective rule, the reference answer otherwise; an '
+            'override must change exactly the operations documented for that rule.',
+            'noauth2 test double supplies identities; keystone token validation itself is not exercised; oslo.policy 6 always enforces scope',
+            'DESIGN.md 5.C16'),
     'C14': ('E-enum', 'exploration',
             'complete enumeration of the closed (version value x route x method) table and of feature probes x versions on the real service',
             'Closed space enumerated completely: 51 version values (none, 1.0-1.39, latest, out-of-range, malformed, '
